@@ -19,7 +19,7 @@ RULE = (
   "states = distinct integration states reached (hash), transitions = operations executed"
 )
 BOUNDS = {
-  "quick": "depth<=2 over 11 ops (133 histories) x 4 poison pairs x {ample,tight} capacities, nworld=2, Newton dense + sparse",
+  "quick": "depth<=2 over 11 ops (133 histories) x 4 poison pairs x {ample,tight} capacities, nworld=2, Newton dense + sparse; 12 disable flags switched on after every history of depth<=1",
   "thorough": "depth<=3 (1464 histories) x 16 poison pairs x {ample,tight}, dense + sparse + implicitfast",
 }
 ASSUMPTIONS = [
@@ -65,7 +65,28 @@ def scenarios(tier, seed):
       for p1, p0 in pois:
         for first in [None] + ALPHABET:
           out.append(dict(opt=opt, cap=cap, p1=p1, p0=p0, first=first, depth=depth, variant=seed % 4))
+  # family 3: the history runs with the model's flags, then a disable flag is switched on (Model field edited at run time) and the
+  # next forward/step must still depend on the integration state only (outputs of skipped stages are reset, not left over)
+  for flag in FLIP_FLAGS:
+    for first in [None] + ALPHABET:
+      out.append(dict(opt=opts[0], cap="ample", p1=pois[0][0], p0=pois[0][1], first=first, depth=1 if tier == "quick" else 2, variant=seed % 4, flip=flag))
   return out
+
+
+FLIP_FLAGS = ("CONTACT", "CONSTRAINT", "EQUALITY", "FRICTIONLOSS", "LIMIT", "SPRING", "DAMPER", "GRAVITY", "CLAMPCTRL", "ACTUATION", "SENSOR", "FILTERPARENT")
+
+
+def _flipped(opt, flag):
+  """Same model with one more disable bit (what a user gets by editing m.opt.disableflags between steps)."""
+  import mujoco
+  import mujoco_warp as mjw
+
+  k = (opt, flag)
+  if k not in _M:
+    mjm = util.load(scenes.rich(opt))
+    mjm.opt.disableflags |= int(getattr(mujoco.mjtDisableBit, "mjDSBL_" + flag))
+    _M[k] = mjw.put_model(mjm)
+  return _M[k]
 
 
 _M = {}
@@ -188,15 +209,16 @@ def execute(scn):
     if back.tobytes() != state.tobytes():
       c.fail("set_get_roundtrip", f"history {h}: set_state/get_state does not round-trip the integration state")
       continue
-    pre = f"history {h}: "
+    pre = f"history {h}: " + (f"then disable {scn['flip']}: " if scn.get("flip") else "")
     bad = False
+    mf = _flipped(scn["opt"], scn["flip"]) if scn.get("flip") else m
     for final in ("forward", "step"):
       world.set_poison(scn["p1"])
-      getattr(mjw, final)(m, d1)
-      s1 = snap.take(m, d1)
+      getattr(mjw, final)(mf, d1)
+      s1 = snap.take(mf, d1)
       world.set_poison(scn["p0"])
-      getattr(mjw, final)(m, d0)
-      s0 = snap.take(m, d0)
+      getattr(mjw, final)(mf, d0)
+      s0 = snap.take(mf, d0)
       if np.any((s1["count"]["overflow"] | s0["count"]["overflow"]) & CAPACITY_BITS):
         counts["excluded_overflow"] += 1
         break
@@ -205,7 +227,7 @@ def execute(scn):
       if len(c.violations) > before:
         for v in c.violations[before:]:
           v["history"] = h
-          v["vkey"] = f"{final}:{v['vkey']}"
+          v["vkey"] = (f"flip_{scn['flip']}:" if scn.get("flip") else "") + f"{final}:{v['vkey']}"
         bad = True
         break
     counts["traces_validated_against_impl"] += 1
